@@ -6,7 +6,7 @@ from ..searchmon import RecoMon
 from . import treeshared as TS
 
 PROP = "C07"
-FAMS = ["negbern", "nonpos3", "cl_negdist", "bern", "quant5", "neg", "const", "zero", "tied", "twoval", "neg", "incr", "decr", "best_first", "best_last", "noisy", "unit",
+FAMS = ["hugeneg", "negbern", "nonpos3", "cl_negdist", "bern", "quant5", "neg", "const", "zero", "tied", "twoval", "neg", "incr", "decr", "best_first", "best_last", "noisy", "unit",
         "large", "cl_hump", "cl_step", "drift"]
 RULE = ("DOO (default and user delta), SOO, SequOOL, StoSOO, StroquOOL, POO x3, GPO x3, PCT, VPCT on all partitions, "
         "d=1..3, T=n and T<n; reward families over-weight all-negative / all-equal / all-zero / tied values, strictly "
@@ -46,7 +46,10 @@ def gen_cases(rng, tier, count=None):
         if T >= 4:
             c["queries"] = sorted(int(x) for x in rng.integers(1, T, size=int(rng.integers(0, 4))))
             if a_is_stroquool(c):
-                c["queries"] = [q for q in c["queries"] if q > T // 2]
+                # the validation phase is short and early (rounds ~45-62 of n = 1000): ask after every round; queries
+                # before a candidate exists raise (known finding of C01) and are skipped
+                c["queries"] = list(range(min(T, 400)))
+                c["tolerate_query_errors"] = True
             if C.family(c["algo"]) == "GPO":
                 H = C.gpo_N_H(c["n"], c["params"]["rhomax"])[1]
                 c["queries"] = [q for q in c["queries"] if q >= H + 1]
